@@ -174,6 +174,10 @@ func init() {
 				Bound: "all edge lists with 5 edges x {greedy,dfs} x {ns,lp} x valign x straight"},
 			{Name: "families", Space: spaceList(c01Families(tier)), Eval: stdEval("C01", famGrid, noop),
 				Bound: "structured families: chains/ladders with 60-70 layers, K(a,b) up to 6x6, binary trees, stars, 400-node chain x {greedy,dfs} x {ns,lp} x {sink,valign,bk} (+ ns positioner up to 40 nodes: documented as time-intensive beyond a few dozen nodes) x {polyline,ortho} x {fixed,per-node}"},
+			{Name: "macro-3", Space: spaceMacro(3, false), Eval: stdEval("C01", staticGrid(gridSpec{P1: allP1, P2: allP2, P4: []int{0, 4}, P5: []int{2}, SZ: []int{2}}.list()), noop),
+				Bound: "every graph built by <=3 gadget insertions (path, fan-in/out of 2..3, 3-cycle, 4-cycle, diamond, long-edge triangle) at any node: shapes with up to 13 edges x {greedy,dfs} x {ns,lp} x {sink,bk} x polyline"},
+			{Name: "macro-2-edges", Space: spaceMacro(2, true), Eval: stdEval("C01", staticGrid(gridSpec{P1: allP1, P2: allP2, P4: []int{0, 1, 3, 4}, P5: []int{2, 3}, SZ: []int{2}}.list()), noop),
+				Bound: "every graph built by <=2 operations from {gadget insertion, edge between existing nodes} x {greedy,dfs} x {ns,lp} x {sink,valign,ns,bk} x {polyline,ortho}"},
 			{Name: "seeds", Space: spaceSeeded(seedWitnesses, tierPick(tier, 1, 2)), Eval: stdEval("C01", staticGrid(gridSpec{P1: allP1, P2: allP2, P4: []int{0, 1, 3, 4}, P5: []int{2, 3}, SZ: []int{1, 2}}.list()), noop),
 				Bound: fmt.Sprintf("all states within %d edit operations of the recorded witnesses", tierPick(tier, 1, 2))},
 		}
@@ -246,6 +250,8 @@ func init() {
 				Bound: "all cyclic edge lists with <=4 edges x greedy-random with every RNG answer sequence x {ns,lp}"},
 			{Name: "D(6,7)", Space: spaceD(6, 5, 7, false), Eval: stdEval("C03", staticGrid(gridSpec{P1: []int{0}, P2: allP2, P4: []int{1}, P5: []int{0}, SZ: []int{1}}.list()), or),
 				Bound: "every multiset of 5..7 edges over the 15 pairs u<v of 6 nodes (DAGs; the space where network simplex pivots)"},
+			{Name: "macro-3", Space: spaceMacro(3, false), Eval: stdEval("C03", staticGrid(gridSpec{P1: allP1, P2: allP2, P4: []int{1}, P5: []int{0}, SZ: []int{2}}.list()), or),
+				Bound: "every graph built by <=3 gadget insertions (shapes with up to 13 edges) x {greedy,dfs} x {ns,lp} x valign x per-node sizes"},
 			{Name: "seeds", Space: spaceSeeded(seedWitnesses, tierPick(tier, 1, 2)), Eval: stdEval("C03", staticGrid(cheap), or),
 				Bound: "all states within 1 (thorough 2) edit operations of the recorded witnesses"},
 		}
